@@ -35,6 +35,14 @@ package interpreter
 //@   ensures old(len(i.src)) > 0 ==> len(i.src) == old(len(i.src)) - 1 && (forall k int :: 0 <= k && k < len(i.src) ==> i.src[k] == old(i.src[k]))
 //@   ensures old(len(i.src)) > 0 ==> result == old(i.sourceFragments[i.src[len(i.src)-1]]) && i.simpleStore == old(i.sourceFragments[i.src[len(i.src)-1]].simpleCheckpoint) && i.temporalStore == old(i.sourceFragments[i.src[len(i.src)-1]].temporalCheckpoint)
 //@   loop 1 invariant len(i.src) == old(len(i.src)) - 1 && (forall k int :: 0 <= k && k < len(i.src) ==> i.src[k] == old(i.src[k])) && i.simpleStore == old(i.simpleStore) && i.temporalStore == old(i.temporalStore) && f == old(i.sourceFragments[i.src[len(i.src)-1]]) && f != nil
+// Nothing the popped fragment declared stays known (a later definition of the same predicate must be accepted as in a
+// fresh interpreter), and a pop never makes a predicate known. (The converse half of the stack property - predicates
+// that were known BEFORE the push stay known - does not hold for this code: the fragment's program also lists
+// declarations contributed by earlier fragments; recorded in DESIGN.md.)
+//@   ensures old(len(i.src)) > 0 && result.program != nil ==> (forall sym ast.PredicateSym :: sym in result.program.Decls && result.program.Decls[sym] != nil ==> result.program.Decls[sym].DeclaredAtom.Predicate !in i.knownPredicates)
+//@   ensures forall q ast.PredicateSym :: q in i.knownPredicates ==> old(q in i.knownPredicates)
+//@   loop 1 invariant forall sym ast.PredicateSym :: sym in seen && f.program.Decls[sym] != nil ==> f.program.Decls[sym].DeclaredAtom.Predicate !in i.knownPredicates
+//@   loop 1 invariant forall q ast.PredicateSym :: q in i.knownPredicates ==> old(q in i.knownPredicates)
 
 //@ func (i *Interpreter) resetInteractiveDefs(buffer)
 //@   requires i != nil && srcOK(i)
